@@ -175,7 +175,11 @@ def straddle_possible(h: Hole, pat: str, left: str, right: str, prev_hole: bool)
         return False
     hc = hole_chars(h)
     if hc is None:
-        return True
+        # unknown alphabet: an occurrence that is not wholly inside the hole must start in the literal text before it or
+        # end in the literal text after it (an adjacent hole is handled conservatively)
+        if prev_hole:
+            return True
+        return any(left.endswith(pat[:k]) or right.startswith(pat[k:]) for k in range(1, len(pat)))
     _, first, last = hc
     n = len(pat)
     # occurrence covering the end of `left` and the start of the hole
@@ -457,7 +461,7 @@ def set_item(interp, obj, idx, v):
         return
     if isinstance(idx, Sym):
         if isinstance(obj, dict):
-            raise Unsupported("dict store with symbolic key")
+            raise Unsupported("dict store with symbolic key (declare the variable as a symbolic-key dict in the contract)")
         raise Unsupported("symbolic index store into concrete container")
     try:
         obj[idx] = v
